@@ -63,7 +63,7 @@ func refExpand(in *input, isDir map[string]bool) refResult {
 			case strings.HasPrefix(l, "title "):
 				res.Titles = append(res.Titles, strings.TrimSpace(strings.TrimPrefix(l, "title ")))
 			case strings.HasPrefix(l, "include "):
-				name := strings.TrimPrefix(l, "include ")
+				name := substDefines(strings.TrimPrefix(l, "include "), in.Defines)
 				fail := func(cls int) bool {
 					res.Err, res.Cls, res.Pos, res.Chain = true, cls, posT{file, i + 1}, chain
 					return false
@@ -101,6 +101,31 @@ func refExpand(in *input, isDir map[string]bool) refResult {
 	}
 	rec(main, 1, nil)
 	return res
+}
+
+// substDefines replaces ~name~ by the value of the first -D that defines it
+// (the reference only ever sees names defined on the command line).
+func substDefines(s string, defs []string) string {
+	for _, d := range defs {
+		i := strings.IndexByte(d, '=')
+		if i < 0 {
+			continue
+		}
+		tok := "~" + d[:i] + "~"
+		seen := false
+		for _, e := range defs {
+			if e == d {
+				break
+			}
+			if strings.HasPrefix(e, d[:i]+"=") {
+				seen = true
+			}
+		}
+		if !seen {
+			s = strings.ReplaceAll(s, tok, d[i+1:])
+		}
+	}
+	return s
 }
 
 func dirsOf(in *input) map[string]bool {
@@ -191,6 +216,31 @@ func graphCase(rng *rand.Rand, shape string) *input {
 		in.Files["conf/x.cfg"] = titled("confx", "")
 		in.Files["lib/x.cfg"] = titled("libx", "")
 		in.Files["x.cfg"] = titled("rootx", "")
+	case "leading-slash":
+		// a name that starts with `/` is appended to each search directory like
+		// any other: sibling first, then -I; it is NOT the file of that absolute
+		// path (decoys: /etc/passwd exists on the machine, etc/passwd is ours)
+		in.IP = []string{"", "lib"}
+		switch rng.Intn(4) {
+		case 0:
+			in.Files["m.cfg"] = titled("m", "", "include /x.cfg", "include /sub/y.cfg", "")
+			in.Files["x.cfg"] = titled("x", "")
+			in.Files["sub/y.cfg"] = titled("y", "")
+		case 1:
+			in.Files["m.cfg"] = titled("m", "include /etc/passwd", "")
+			in.Files["etc/passwd"] = titled("ourpasswd", "")
+		case 2:
+			in.Main = "conf/m.cfg"
+			in.Files["conf/m.cfg"] = titled("m", "", "include /etc/passwd", "include /only.cfg")
+			in.Files["conf/etc/passwd"] = titled("confpasswd", "")
+			in.Files["etc/passwd"] = titled("rootpasswd", "")
+			in.Files["lib/only.cfg"] = titled("libonly", "")
+		default:
+			in.Defines = []string{"root=/etc", "top="}
+			in.Files["m.cfg"] = titled("m", "include ~root~/passwd", "include ~top~/x.cfg", "")
+			in.Files["etc/passwd"] = titled("ourpasswd", "")
+			in.Files["lib/x.cfg"] = titled("libx", "")
+		}
 	case "path-leak":
 		// The search path is per clause: after a file of ANOTHER directory D has
 		// itself included something (and has been read to its end), a later
@@ -388,7 +438,7 @@ func graphCase(rng *rand.Rand, shape string) *input {
 	return in
 }
 
-var graphShapes = []string{"path-leak", "path-leak", "wide", "comb", "shadow-sibling-listed", "nonl-title", "nonl-end", "nonl-nested", "chain", "chain", "chain", "diamond", "self", "mutual", "cycle3", "directory", "directory-nested", "missing",
+var graphShapes = []string{"leading-slash", "path-leak", "path-leak", "wide", "comb", "shadow-sibling-listed", "nonl-title", "nonl-end", "nonl-nested", "chain", "chain", "chain", "diamond", "self", "mutual", "cycle3", "directory", "directory-nested", "missing",
 	"only-I", "shadow-sibling", "shadow-order", "sibling-of-includer", "dotdot", "no-final-newline", "empty-files", "random", "random", "random", "random"}
 
 // escapesRoot says whether some include name of the file set could climb
